@@ -15,6 +15,11 @@ type BasicPrivateIssuer struct {
 }
 
 func NewBasicPrivateIssuer(key *oprf.PrivateKey) *BasicPrivateIssuer {
+	// oprf.PrivateKey computes and caches its public key on first use without
+	// synchronization. Force that here so that the issuer only reads the key
+	// afterwards and can be shared between goroutines.
+	key.Public()
+
 	return &BasicPrivateIssuer{
 		tokenKey: key,
 	}
